@@ -275,8 +275,13 @@ def multi_order_stream(chk, n, do_model=True):
         chk.count('multi-order:products=%d' % len(sn['prods'])); chk.count('multi-order:shared-raw-material=%s' % shared); chk.count('multi-order:paused=%s' % sn['paused'])
         if sn['foreign_nbom']:
             chk.mismatch('NBOM of a product for a raw material it does not use is not 0: %s' % (sn['foreign_nbom'][:3],), dict(mode='multi-order', node=sn['node'], t=sn['t'], case=sn['case'])); continue
-        # margin rule: a position within 1e-7 of a reorder point may fall on either side in binary64
-        if any(pd['pol']['type'] in ('sS', 'rQ') and abs(ip - F(pd['pol']['s'])) <= Fraction(1, 10 ** 7) and ip != F(pd['pol']['s']) for pd, ip in zip(sn['prods'], mip)):
+        # margin rule: a position within 1e-7 of a reorder point may fall on either side in binary64.  A position exactly ON the reorder point is
+        # compared (the rule's 'at or below' is decided there) when the step's inputs are small dyadic numbers, so that the implementation's float
+        # arithmetic is exact; with inputs such as -1.8333333333333335 (shares of earlier periods) the exact sum of the binary64 inputs can be 8
+        # while the float sum is 8.000000000000002: the rounding error decides, which is the regime of the margin rule
+        inexact = any(F(x).denominator > 2 ** 20 for pd in sn['prods'] for x in (pd['il'], pd['dem'], pd['pfg'])) or \
+            any(F(x).denominator > 2 ** 20 for r in sn['rms'] for x in [r['inv']] + [y for _, oo, idi in r['sups'] for y in (oo, idi)])
+        if any(pd['pol']['type'] in ('sS', 'rQ') and abs(ip - F(pd['pol']['s'])) <= Fraction(1, 10 ** 7) and (ip != F(pd['pol']['s']) or inexact) for pd, ip in zip(sn['prods'], mip)):
             near += 1; continue
         bad = [(pd['id'], float(a), float(b)) for pd, a, b in zip(sn['prods'], mfg, [F(x) for x in sn['oqfg']]) if not close(a, b)]
         bad += [(rm['id'], p[0], float(a), float(F(b))) for rm, ra, rb in zip(sn['rms'], moq, sn['oq']) for p, a, b in zip(rm['sups'], ra, rb) if not close(a, F(b))]
